@@ -143,6 +143,10 @@ func (w *World) NextBlock() {
 		w.BC.Commit()
 		w.Prev = w.B
 	}
+	if w.id == 0 {
+		// a World assembled by hand (e.g. several worlds forked from one genesis) still gets process-unique hashes
+		w.id = atomic.AddUint64(&worldSeq, 1)
+	}
 	w.Round++
 	b := block.NewBlock("", w.Round)
 	b.Hash = encryption.Hash(fmt.Sprintf("verif-block-%d-world-%d", w.Round, w.id))
